@@ -78,6 +78,10 @@ def check_line(op, args, out):
         want = 0 if x <= 0 else min(int(x), 2 ** 64 - 1)
         if int(val) != want:
             return f"{op} {args}: cast gives {val}, saturating floor is {want}"
+    elif name == "is_normal" and kind == "B":
+        want = abs(Fraction(xs[0])) >= Fraction(1, 2 ** 1022)
+        if (val == "1") != want:
+            return f"{op} {args}: is_normal is not |x| >= 2^-1022"
     elif name in ("lt", "le", "eq") and kind == "B":
         want = {"lt": xs[0] < xs[1], "le": xs[0] <= xs[1], "eq": xs[0] == xs[1]}[name]
         if (val == "1") != want:
